@@ -11,7 +11,7 @@ sed -i "s#/repo/#$WT/#g" "$H/Cargo.toml"
 # a private copy of the Lean tree (with its build output): a change that edits a table regenerates Garnish/Gen/*.lean, which
 # must not happen in /verif/lean while other checks or proof work use it
 L=/tmp/seedwork/lean-$NAME
-rsync -a --delete /verif/lean/ "$L/"
+rsync -a --delete /verif/lean/ "$L/" || [ $? -eq 24 ]      # 24: a file vanished while another build was writing it
 export VERIF_REPO="$WT" VERIF_HARNESS="$H" VERIF_OUT=/tmp/seedwork/out-$NAME VERIF_WORK=/tmp/seedwork/work-$NAME VERIF_LEAN="$L"
 mkdir -p "$VERIF_OUT" "$VERIF_WORK"
 for P in "$@"; do
